@@ -801,10 +801,13 @@ pp_bp:       \* [pcore] back-pressure / closed check
 pp_clear:    \* [pcore] clear the stream-closed notifier (repaired code: stop if the output stream was dropped meanwhile)
   if (FixD5 /\ ppClosed[pp]) { ppHeld[pp] := ppHeld[pp] - 1; goto pp_dealloc; }
   else { ppNC[pp] := NoW; };
-pp_in:       \* [pipe] poll the input stream
+pp_in:       \* [pipe] poll the input stream: first look
   if (inItems[pp] # << >>) { ppItem[kj] := Head(inItems[pp]); inItems[pp] := Tail(inItems[pp]); goto pp_proc; }
-  else if (inClosed[pp]) { h := PFlag(h, pp, "in_end"); goto pp_end; }
-  else { inWaker[pp] := PW(kj); };
+  else if (inClosed[pp]) { h := PFlag(h, pp, "in_end"); goto pp_end; };
+pp_in2:      \* [inpoll] the stream registers the waker and looks again (an item or the end may have arrived meanwhile)
+  inWaker[pp] := PW(kj);
+  if (inItems[pp] # << >>) { ppItem[kj] := Head(inItems[pp]); inItems[pp] := Tail(inItems[pp]); goto pp_proc; }
+  else if (inClosed[pp]) { h := PFlag(h, pp, "in_end"); goto pp_end; };
 pp_reg:      \* [pcore] register to be woken when the output stream is dropped
   if (FixD5 /\ ppClosed[pp]) { ppHeld[pp] := ppHeld[pp] - 1; goto pp_dealloc; }
   else {
@@ -834,10 +837,14 @@ pp_push:     \* [pcore] push the output and wake the consumer
   parkTok := Unpark(parkTok, TaskOf(ppNotify[pp]));
   ppNotify[pp] := NoW;
   goto pp_clear;
-pi_in:       \* [pipe] pipe_in: poll the input stream
+pi_in:       \* [pipe] pipe_in: poll the input stream: first look
+  if (inItems[pp] # << >>) { ppItem[kj] := Head(inItems[pp]); inItems[pp] := Tail(inItems[pp]); goto pp_proc; }
+  else if (inClosed[pp]) { h := PFlag(h, pp, "in_end"); goto pp_dealloc; };
+pi_in2:      \* [inpoll] register the waker and look again
+  inWaker[pp] := PW(kj);
   if (inItems[pp] # << >>) { ppItem[kj] := Head(inItems[pp]); inItems[pp] := Tail(inItems[pp]); goto pp_proc; }
   else if (inClosed[pp]) { h := PFlag(h, pp, "in_end"); goto pp_dealloc; }
-  else { inWaker[pp] := PW(kj); rv[self] := 0; return; };
+  else { rv[self] := 0; return; };
 pp_dealloc:  \* [pipe] stop polling: the poll function (input stream and closure) is dropped
   if (pollFn[pp]) { h := PFlag(PFlag(h, pp, "in_dropped"), pp, "closure_dropped"); };
   pollFn[pp] := FALSE;
@@ -5132,13 +5139,11 @@ pp_in(self) == /\ pc[self] = "pp_in"
                      THEN /\ ppItem' = [ppItem EXCEPT ![kj[self]] = Head(inItems[pp[self]])]
                           /\ inItems' = [inItems EXCEPT ![pp[self]] = Tail(inItems[pp[self]])]
                           /\ pc' = [pc EXCEPT ![self] = "pp_proc"]
-                          /\ UNCHANGED << inWaker, h >>
+                          /\ h' = h
                      ELSE /\ IF inClosed[pp[self]]
                                 THEN /\ h' = PFlag(h, pp[self], "in_end")
                                      /\ pc' = [pc EXCEPT ![self] = "pp_end"]
-                                     /\ UNCHANGED inWaker
-                                ELSE /\ inWaker' = [inWaker EXCEPT ![pp[self]] = PW(kj[self])]
-                                     /\ pc' = [pc EXCEPT ![self] = "pp_reg"]
+                                ELSE /\ pc' = [pc EXCEPT ![self] = "pp_in2"]
                                      /\ h' = h
                           /\ UNCHANGED << inItems, ppItem >>
                /\ UNCHANGED << qstate, qpoll, jobs, wakeBlocked, schedule, 
@@ -5151,12 +5156,42 @@ pp_in(self) == /\ pc[self] = "pp_in"
                                dnWaker, parkTok, rv, rwb, rneed, dsl, atomic, 
                                strong, ppPending, ppClosed, ppNotify, ppNC, 
                                ppBP, ppDepth, ppAlive, ppHeld, inClosed, 
-                               pollFn, chuteFn, pwTaken, nextPoll, stack, dead, 
-                               sti, rq, sq, sj, ww, rsq, bown, bwk, bi, bcur, 
-                               bw, jq, jj, jwk, fj, dq, dj, oq, oop, omode, oj, 
-                               yq, yop, tq, top, af, wf, wop, sf, sctx, xf, 
-                               cop, kj, pp, np, nbp, dp, pf, pctx, pq, pj, pd, 
-                               nq >>
+                               inWaker, pollFn, chuteFn, pwTaken, nextPoll, 
+                               stack, dead, sti, rq, sq, sj, ww, rsq, bown, 
+                               bwk, bi, bcur, bw, jq, jj, jwk, fj, dq, dj, oq, 
+                               oop, omode, oj, yq, yop, tq, top, af, wf, wop, 
+                               sf, sctx, xf, cop, kj, pp, np, nbp, dp, pf, 
+                               pctx, pq, pj, pd, nq >>
+
+pp_in2(self) == /\ pc[self] = "pp_in2"
+                /\ inWaker' = [inWaker EXCEPT ![pp[self]] = PW(kj[self])]
+                /\ IF inItems[pp[self]] # << >>
+                      THEN /\ ppItem' = [ppItem EXCEPT ![kj[self]] = Head(inItems[pp[self]])]
+                           /\ inItems' = [inItems EXCEPT ![pp[self]] = Tail(inItems[pp[self]])]
+                           /\ pc' = [pc EXCEPT ![self] = "pp_proc"]
+                           /\ h' = h
+                      ELSE /\ IF inClosed[pp[self]]
+                                 THEN /\ h' = PFlag(h, pp[self], "in_end")
+                                      /\ pc' = [pc EXCEPT ![self] = "pp_end"]
+                                 ELSE /\ pc' = [pc EXCEPT ![self] = "pp_reg"]
+                                      /\ h' = h
+                           /\ UNCHANGED << inItems, ppItem >>
+                /\ UNCHANGED << qstate, qpoll, jobs, wakeBlocked, schedule, 
+                                pthreads, nspawned, palive, busy, busyLocked, 
+                                inbox, chanOpen, pfin, thrHeld, maxThreads, 
+                                jkind, jaw, fres, fwaker, gfired, gwaker, 
+                                gthreads, dwSt, dwW, dblTaken, dblW1, dblW2, 
+                                nextDW, ready, cwait, cnotif, cvHeld, sdres, 
+                                jpanic, sfst, slotSt, qrSent, qrWaker, dnState, 
+                                dnWaker, parkTok, rv, rwb, rneed, dsl, atomic, 
+                                strong, ppPending, ppClosed, ppNotify, ppNC, 
+                                ppBP, ppDepth, ppAlive, ppHeld, inClosed, 
+                                pollFn, chuteFn, pwTaken, nextPoll, stack, 
+                                dead, sti, rq, sq, sj, ww, rsq, bown, bwk, bi, 
+                                bcur, bw, jq, jj, jwk, fj, dq, dj, oq, oop, 
+                                omode, oj, yq, yop, tq, top, af, wf, wop, sf, 
+                                sctx, xf, cop, kj, pp, np, nbp, dp, pf, pctx, 
+                                pq, pj, pd, nq >>
 
 pp_reg(self) == /\ pc[self] = "pp_reg"
                 /\ IF FixD5 /\ ppClosed[pp[self]]
@@ -5304,18 +5339,11 @@ pi_in(self) == /\ pc[self] = "pi_in"
                      THEN /\ ppItem' = [ppItem EXCEPT ![kj[self]] = Head(inItems[pp[self]])]
                           /\ inItems' = [inItems EXCEPT ![pp[self]] = Tail(inItems[pp[self]])]
                           /\ pc' = [pc EXCEPT ![self] = "pp_proc"]
-                          /\ UNCHANGED << rv, inWaker, h, stack, kj, pp >>
+                          /\ h' = h
                      ELSE /\ IF inClosed[pp[self]]
                                 THEN /\ h' = PFlag(h, pp[self], "in_end")
                                      /\ pc' = [pc EXCEPT ![self] = "pp_dealloc"]
-                                     /\ UNCHANGED << rv, inWaker, stack, kj, 
-                                                     pp >>
-                                ELSE /\ inWaker' = [inWaker EXCEPT ![pp[self]] = PW(kj[self])]
-                                     /\ rv' = [rv EXCEPT ![self] = 0]
-                                     /\ pc' = [pc EXCEPT ![self] = Head(stack[self]).pc]
-                                     /\ kj' = [kj EXCEPT ![self] = Head(stack[self]).kj]
-                                     /\ pp' = [pp EXCEPT ![self] = Head(stack[self]).pp]
-                                     /\ stack' = [stack EXCEPT ![self] = Tail(stack[self])]
+                                ELSE /\ pc' = [pc EXCEPT ![self] = "pi_in2"]
                                      /\ h' = h
                           /\ UNCHANGED << inItems, ppItem >>
                /\ UNCHANGED << qstate, qpoll, jobs, wakeBlocked, schedule, 
@@ -5325,14 +5353,49 @@ pi_in(self) == /\ pc[self] = "pi_in"
                                gthreads, dwSt, dwW, dblTaken, dblW1, dblW2, 
                                nextDW, ready, cwait, cnotif, cvHeld, sdres, 
                                jpanic, sfst, slotSt, qrSent, qrWaker, dnState, 
-                               dnWaker, parkTok, rwb, rneed, dsl, atomic, 
+                               dnWaker, parkTok, rv, rwb, rneed, dsl, atomic, 
                                strong, ppPending, ppClosed, ppNotify, ppNC, 
                                ppBP, ppDepth, ppAlive, ppHeld, inClosed, 
-                               pollFn, chuteFn, pwTaken, nextPoll, dead, sti, 
-                               rq, sq, sj, ww, rsq, bown, bwk, bi, bcur, bw, 
-                               jq, jj, jwk, fj, dq, dj, oq, oop, omode, oj, yq, 
-                               yop, tq, top, af, wf, wop, sf, sctx, xf, cop, 
-                               np, nbp, dp, pf, pctx, pq, pj, pd, nq >>
+                               inWaker, pollFn, chuteFn, pwTaken, nextPoll, 
+                               stack, dead, sti, rq, sq, sj, ww, rsq, bown, 
+                               bwk, bi, bcur, bw, jq, jj, jwk, fj, dq, dj, oq, 
+                               oop, omode, oj, yq, yop, tq, top, af, wf, wop, 
+                               sf, sctx, xf, cop, kj, pp, np, nbp, dp, pf, 
+                               pctx, pq, pj, pd, nq >>
+
+pi_in2(self) == /\ pc[self] = "pi_in2"
+                /\ inWaker' = [inWaker EXCEPT ![pp[self]] = PW(kj[self])]
+                /\ IF inItems[pp[self]] # << >>
+                      THEN /\ ppItem' = [ppItem EXCEPT ![kj[self]] = Head(inItems[pp[self]])]
+                           /\ inItems' = [inItems EXCEPT ![pp[self]] = Tail(inItems[pp[self]])]
+                           /\ pc' = [pc EXCEPT ![self] = "pp_proc"]
+                           /\ UNCHANGED << rv, h, stack, kj, pp >>
+                      ELSE /\ IF inClosed[pp[self]]
+                                 THEN /\ h' = PFlag(h, pp[self], "in_end")
+                                      /\ pc' = [pc EXCEPT ![self] = "pp_dealloc"]
+                                      /\ UNCHANGED << rv, stack, kj, pp >>
+                                 ELSE /\ rv' = [rv EXCEPT ![self] = 0]
+                                      /\ pc' = [pc EXCEPT ![self] = Head(stack[self]).pc]
+                                      /\ kj' = [kj EXCEPT ![self] = Head(stack[self]).kj]
+                                      /\ pp' = [pp EXCEPT ![self] = Head(stack[self]).pp]
+                                      /\ stack' = [stack EXCEPT ![self] = Tail(stack[self])]
+                                      /\ h' = h
+                           /\ UNCHANGED << inItems, ppItem >>
+                /\ UNCHANGED << qstate, qpoll, jobs, wakeBlocked, schedule, 
+                                pthreads, nspawned, palive, busy, busyLocked, 
+                                inbox, chanOpen, pfin, thrHeld, maxThreads, 
+                                jkind, jaw, fres, fwaker, gfired, gwaker, 
+                                gthreads, dwSt, dwW, dblTaken, dblW1, dblW2, 
+                                nextDW, ready, cwait, cnotif, cvHeld, sdres, 
+                                jpanic, sfst, slotSt, qrSent, qrWaker, dnState, 
+                                dnWaker, parkTok, rwb, rneed, dsl, atomic, 
+                                strong, ppPending, ppClosed, ppNotify, ppNC, 
+                                ppBP, ppDepth, ppAlive, ppHeld, inClosed, 
+                                pollFn, chuteFn, pwTaken, nextPoll, dead, sti, 
+                                rq, sq, sj, ww, rsq, bown, bwk, bi, bcur, bw, 
+                                jq, jj, jwk, fj, dq, dj, oq, oop, omode, oj, 
+                                yq, yop, tq, top, af, wf, wop, sf, sctx, xf, 
+                                cop, np, nbp, dp, pf, pctx, pq, pj, pd, nq >>
 
 pp_dealloc(self) == /\ pc[self] = "pp_dealloc"
                     /\ IF pollFn[pp[self]]
@@ -5364,9 +5427,10 @@ pp_dealloc(self) == /\ pc[self] = "pp_dealloc"
                                     cop, np, nbp, dp, pf, pctx, pq, pj, pd, nq >>
 
 PipePoll(self) == pp_fn(self) \/ pp_bp(self) \/ pp_clear(self)
-                     \/ pp_in(self) \/ pp_reg(self) \/ pp_end(self)
-                     \/ pp_closed(self) \/ pp_proc(self) \/ pp_body(self)
-                     \/ pp_push(self) \/ pi_in(self) \/ pp_dealloc(self)
+                     \/ pp_in(self) \/ pp_in2(self) \/ pp_reg(self)
+                     \/ pp_end(self) \/ pp_closed(self) \/ pp_proc(self)
+                     \/ pp_body(self) \/ pp_push(self) \/ pi_in(self)
+                     \/ pi_in2(self) \/ pp_dealloc(self)
 
 cn_poll(self) == /\ pc[self] = "cn_poll"
                  /\ nbp' = [nbp EXCEPT ![self] = ppBP[np[self]]]
